@@ -18,6 +18,7 @@ def cfg : Cfg :=
     valueWithoutClassRaises := Gen.C18.ioniceValueWithoutClassRaises
     pid0Refused := Gen.C18.rlimitRefusesPid0
     emptyAsksAll := Gen.C18.emptyAffinityRange
+    emptyAsksCount := Gen.C18.emptyAffinityUsesStatCount
     getSortedSet := Gen.C18.affinityGetSortedSet
     setDedup := Gen.C18.affinitySetDedup
     prioGet := ⟨Gen.C18.getpriorityClearsErrno, ErrTest.ofCode Gen.C18.getpriorityErrTest⟩
